@@ -2,9 +2,13 @@
 import json, os, subprocess, sys, time, hashlib, shutil, tempfile
 
 VERIF = "/verif"
-REPO = "/repo"
-TARGET = "/verif/target-repo"
+# the registered checks always use /repo and /verif; the overrides exist only for the
+# mutation-analysis lanes of tools/mutate.py, which work on scratch worktrees and must not
+# overwrite the real evidence
+REPO = os.environ.get("VERIF_REPO", "/repo")
+TARGET = os.environ.get("VERIF_TARGET_REPO", "/verif/target-repo")
 ANTHEM = f"{TARGET}/release/anthem"
+OUT_ROOT = os.environ.get("VERIF_OUT", VERIF)
 
 def build_anthem():
     """Builds the real anthem binary from /repo's current working tree (guard off)."""
@@ -74,7 +78,7 @@ class Run:
         for k, r in self.violations: by.setdefault(k, []).append(r)
         known_seen = [(k, known[k], len(v)) for k, v in by.items() if k in known]
         unknown = sorted([(k, v) for k, v in by.items() if k not in known], key=lambda kv: (len(kv[0]), kv[0]))
-        d = f"{VERIF}/replay/{self.pid}"
+        d = f"{OUT_ROOT}/replay/{self.pid}"
         os.makedirs(d, exist_ok=True)
         for f in os.listdir(d):
             if f.startswith("cli_"): os.remove(os.path.join(d, f))
@@ -99,7 +103,7 @@ class Run:
         if merge_from is not None:
             # merge with the evidence written by the in-process engine for the same property
             try:
-                old = json.load(open(f"{VERIF}/evidence/{self.pid}.json"))
+                old = json.load(open(f"{OUT_ROOT}/evidence/{self.pid}.json"))
                 oc = old["coverage"]
                 for k in ("states", "transitions", "traces_validated_against_impl", "evaluations", "distinct_nontrivial"):
                     cov[k] = cov.get(k, 0) + oc.get(k, 0)
@@ -114,8 +118,8 @@ class Run:
                 ev["level"] = old.get("level", self.level)
             except Exception as e:
                 self.machinery.append(f"cannot merge evidence: {e}")
-        os.makedirs(f"{VERIF}/evidence", exist_ok=True)
-        json.dump(ev, open(f"{VERIF}/evidence/{self.pid}.json", "w"), indent=1)
+        os.makedirs(f"{OUT_ROOT}/evidence", exist_ok=True)
+        json.dump(ev, open(f"{OUT_ROOT}/evidence/{self.pid}.json", "w"), indent=1)
         print(f"[{self.pid}/cli] tier={self.tier} states={self.states} transitions={self.transitions} validated={self.validated} distinct_nontrivial={len(self.distinct)} wall={time.time()-self.t0:.1f}s")
         for k, v in sorted(self.counters.items()): print(f"[{self.pid}/cli]   {k} = {v}")
         for l in lines: print(l)
